@@ -156,7 +156,7 @@ func runC18(ctx *Ctx) {
 		locals[i] = r.Local()
 	}
 	stats := newN2stats()
-	wire := explore.Explore(explore.Config{Bound: bound, Workers: Workers(), Deadline: time.Now().Add(4 * time.Minute)}, func(c *explore.Chooser, w int) {
+	wire := explore.Explore(explore.Config{Bound: bound, Workers: Workers(), Deadline: time.Now().Add(10 * time.Minute)}, func(c *explore.Chooser, w int) {
 		emu, acfg := n2config(c)
 		sst := []int{1, 2, 255}[c.Pick("sst", 3)]
 		sd := []string{"010203", "000001", "ffffff", "ABCDEF", "00007B", "0a0B0c"}[c.Pick("sd", 6)] // (hexadecimal digits in either case: TS 29.571)
